@@ -6,9 +6,12 @@
 //
 // ops (one per line; payload = hex | - | @len:pat):
 //
-//	C typ=tcp|unix mode=lt|et|oneshot maxwb=N fsize=N openwrite=<call>;<call>…|-
+//	C typ=tcp|unix mode=lt|et|oneshot maxwb=N fsize=N [dial=1] openwrite=<call>;<call>…|-
 //	      a new connection; the calls of openwrite (tokens separated by '/') are issued INSIDE the
 //	      OnOpen callback, i.e. before addConn registers the descriptor with epoll.
+//	      dial=1: the connection is registered the way DialAsync does for a connect in progress
+//	      (addDialer: read+write interest, connected callback pending); the connect then completes
+//	      (EPOLLOUT) and the openwrite calls are issued inside the connected callback.
 //	O write <payload> K=<k>
 //	O writev <m> <payload>*m K=<k>
 //	O sendfile <off> <len> K=<k,k,…>           file = pattern file of fsize bytes positioned at off
@@ -45,9 +48,11 @@
 package main
 
 import (
+	"bytes"
 	"errors"
 	"fmt"
 	"os"
+	osexec "os/exec"
 	"strconv"
 	"strings"
 	"sync/atomic"
@@ -529,7 +534,11 @@ func gen(g *lp.Gen) {
 			}
 			open = strings.Join(cl, ";")
 		}
-		g.P("C typ=%s mode=%s maxwb=%d fsize=%d openwrite=%s", typ, mode, s.maxwb, s.fsize, open)
+		dial := ""
+		if g.Chance(1, 7) {
+			dial = " dial=1"
+		}
+		g.P("C typ=%s mode=%s maxwb=%d fsize=%d%s openwrite=%s", typ, mode, s.maxwb, s.fsize, dial, open)
 		nops := 2 + g.Intn(12)
 		if g.Chance(1, 8) {
 			nops = 12 + g.Intn(14)
@@ -605,6 +614,8 @@ type caseState struct {
 	nontrivial   bool
 	key          strings.Builder
 	fromOpen     bool // a backlog was created inside the open callback
+	dial         bool // registered through addDialer
+	lines        []string // the op lines of the case so far (for the isolated re-run)
 	zeroWrites   int64
 	spin         int32
 }
@@ -905,6 +916,9 @@ func (cs *caseState) state() string {
 			origin := "after-register"
 			if cs.fromOpen {
 				origin = "open-callback"
+				if cs.dial {
+					origin = "connected-callback"
+				}
 			}
 			orc("c04-quiescent-unarmed", "mode=%s backlog-origin=%s queue=%d items (%d bytes) registered=%v epollout=%v oneshot-disarmed=%v wadded=%v",
 				cs.mode, origin, len(st.Items), backlog, reg, events&syscall.EPOLLOUT != 0, disarmed, st.IsWAdded)
@@ -970,6 +984,10 @@ func (cs *caseState) backlog() int {
 	return t
 }
 
+// A batch that is not back is a suspected hang only when nothing observable happened on the descriptor
+// for stallLimit (a slow flush on a loaded machine keeps issuing syscalls); a suspicion is confirmed by
+// re-running the case alone in a fresh process before it is reported.
+const stallLimit = 10 * time.Second
 const hangTimeout = 30 * time.Second
 const spinLimit = 200000
 
@@ -994,6 +1012,71 @@ func kv(f []string, key string) (string, bool) {
 		}
 	}
 	return "", false
+}
+
+func (cs *caseState) progressSig() [5]int64 {
+	cs.v.Lock()
+	defer cs.v.Unlock()
+	return [5]int64{cs.v.Writes, int64(len(cs.v.Wire)), int64(len(cs.v.Ctl)), cs.v.Reads, atomic.LoadInt64(&cs.zeroWrites)}
+}
+
+// inject delivers one event batch to the real poller loop; false = the loop did not come back and
+// nothing moved for stallLimit (confirmed in isolation unless this process is the isolated one).
+func (cs *caseState) inject(epfd int, evs []syscall.EpollEvent) bool {
+	done := vsys.InjectAsync(epfd, evs)
+	last, lastT := cs.progressSig(), time.Now()
+	for {
+		select {
+		case <-done:
+			return true
+		case <-time.After(20 * time.Millisecond):
+		}
+		if atomic.LoadInt32(&cs.spin) != 0 {
+			// the zero-length write spin was broken by the shim: the batch comes back
+			<-done
+			return true
+		}
+		if sig := cs.progressSig(); sig != last {
+			last, lastT = sig, time.Now()
+		} else if time.Since(lastT) > stallLimit {
+			if cs.confirmHang() {
+				return false
+			}
+			ex.Count("hang_suspicions", "not confirmed in isolation")
+			<-done // a loaded machine: the isolated run came back, so will this one
+			return true
+		}
+	}
+}
+
+// confirmHang re-runs the current case (up to and including the current op) alone in a fresh process.
+func (cs *caseState) confirmHang() bool {
+	if os.Getenv("HCONN_ISOLATED") == "1" {
+		return true
+	}
+	cmd := osexec.Command(os.Args[0], "exec")
+	cmd.Env = append(os.Environ(), "HCONN_ISOLATED=1")
+	cmd.Stdin = strings.NewReader(strings.Join(cs.lines, "\n") + "\n")
+	var out bytes.Buffer
+	cmd.Stdout = &out
+	doneCh := make(chan error, 1)
+	if err := cmd.Start(); err != nil {
+		return true
+	}
+	go func() { doneCh <- cmd.Wait() }()
+	select {
+	case <-doneCh:
+	case <-time.After(6 * stallLimit):
+		_ = cmd.Process.Kill()
+		return true
+	}
+	lastRes := ""
+	for _, l := range strings.Split(out.String(), "\n") {
+		if l != "" && !strings.HasPrefix(l, ">") && !strings.HasPrefix(l, "#") && !strings.HasPrefix(l, "!") {
+			lastRes = l
+		}
+	}
+	return lastRes == "hung"
 }
 
 func (cs *caseState) hang(what string) {
@@ -1038,6 +1121,9 @@ func exec(e *lp.Exec) {
 		}
 		firstLine = false
 		e.P("> %s", line)
+		if cur != nil && f[0] != "C" {
+			cur.lines = append(cur.lines, line)
+		}
 		switch {
 		case f[0] == "C":
 			cur.finish()
@@ -1047,13 +1133,14 @@ func exec(e *lp.Exec) {
 			mw, _ := kv(f, "maxwb")
 			fs, _ := kv(f, "fsize")
 			ow, _ := kv(f, "openwrite")
+			dl, _ := kv(f, "dial")
 			maxwb, e1 := strconv.Atoi(mw)
 			fsize, e2 := strconv.Atoi(fs)
 			if (typ != "tcp" && typ != "unix") || (mode != "lt" && mode != "et" && mode != "oneshot") || e1 != nil || e2 != nil || maxwb < 0 || fsize < 0 || fsize > 64<<20 {
 				res("bad-op")
 				continue
 			}
-			cs := &caseState{typ: typ, mode: mode, maxwb: maxwb, fsize: fsize, disarmIdx: -1, wireHash: 14695981039346656037}
+			cs := &caseState{typ: typ, mode: mode, maxwb: maxwb, fsize: fsize, disarmIdx: -1, wireHash: 14695981039346656037, lines: []string{line}}
 			bad := false
 			if ow != "-" && ow != "" {
 				for _, it := range strings.Split(ow, ";") {
@@ -1077,12 +1164,40 @@ func exec(e *lp.Exec) {
 			if typ == "unix" {
 				ct = nbio.ConnTypeUnix
 			}
-			fmt.Fprintf(&cs.key, "%s/%s/%v/%d|", typ, mode, maxwb > 0, len(cs.openCalls))
+			fmt.Fprintf(&cs.key, "%s/%s/%v/%d/%s|", typ, mode, maxwb > 0, len(cs.openCalls), dl)
 			e.Count("cells", typ+"/"+mode)
 			cur = cs
 			c := nbio.VerifNewConn(cs.fd, ct)
 			cs.c = c
-			if _, err := en.g.AddConn(c); err != nil {
+			if dl == "1" {
+				// DialAsync: addDialer, then the connect completes and the connected callback runs
+				err := en.g.VerifAddDialer(c, func(c *nbio.Conn, err error) {
+					for _, cl := range cs.openCalls {
+						cs.openRes = append(cs.openRes, cs.doCall(cl))
+					}
+					if st := c.VerifWriteState(false); len(st.Items) > 0 {
+						cs.fromOpen = true
+					}
+				})
+				if err != nil {
+					res("bad-op adddialer: %v", err)
+					cs.dead = true
+					continue
+				}
+				cs.registered = true
+				cs.dial = true
+				cs.v.Lock()
+				if cs.mode == "oneshot" {
+					cs.disarmIdx = len(cs.v.Ctl)
+				}
+				cs.v.Unlock()
+				if !cs.inject(en.epfd, []syscall.EpollEvent{{Fd: int32(cs.fd), Events: syscall.EPOLLOUT}}) {
+					delete(engines, cs.mode)
+					cs.hang("event loop did not come back from the connect event")
+					continue
+				}
+				e.Count("cases", "dialer")
+			} else if _, err := en.g.AddConn(c); err != nil {
 				res("bad-op addconn: %v", err)
 				cs.dead = true
 				continue
@@ -1185,7 +1300,7 @@ func exec(e *lp.Exec) {
 						}
 					}
 				}
-				ok := vsys.InjectTimeout(engines[cs.mode].epfd, []syscall.EpollEvent{{Fd: int32(cs.fd), Events: evs}}, hangTimeout)
+				ok := cs.inject(engines[cs.mode].epfd, []syscall.EpollEvent{{Fd: int32(cs.fd), Events: evs}})
 				if !ok {
 					// the poller is stuck inside the batch (holding the conn mutex): abandon conn and engine
 					delete(engines, cs.mode)
@@ -1198,8 +1313,11 @@ func exec(e *lp.Exec) {
 						select {
 						case raceRes = <-raceDone:
 						case <-time.After(hangTimeout):
-							cs.hang("a call racing with ResetPollerEvent never returned")
-							continue
+							if cs.confirmHang() {
+								cs.hang("a call racing with ResetPollerEvent never returned")
+								continue
+							}
+							raceRes = <-raceDone
 						}
 					}
 				}
